@@ -520,3 +520,32 @@ contract(
     modifies=["self.conn", "self.last_commit", "self.num_uncommitted_statements", "self.enable_lazy_commit", "self.testing", "alloc", "Event.id"],
     writes_fresh=["*"], raises=["IntegrityError"],
 )
+
+
+# -- C03: a stored event is returned by a windowed read exactly when it intersects the window (as instants; lemma F5) ----------------
+def stored_event_in_window(storage, bucket_id, event, starttime, endtime):
+    storage.insert_one(bucket_id, event)
+    return storage.get_events(bucket_id, -1, starttime, endtime)
+
+
+contract(
+    "contracts.sqlite.stored_event_in_window",
+    params={"storage": "SqliteStorage", "bucket_id": "str", "event": "Event", "starttime": "Optional[datetime]", "endtime": "Optional[datetime]"},
+    returns="List[Event]",
+    requires=["lazy_inv(storage)", "bucket_exists(storage, bucket_id)",
+              "EPOCH <= event.timestamp and event.timestamp <= EPOCH + timedelta(days=47482)",
+              "timedelta(0) <= event.duration and event.duration <= timedelta(days=31)",
+              "starttime is None or (EPOCH <= starttime and starttime <= EPOCH + timedelta(days=47513))",
+              "endtime is None or (EPOCH <= endtime and endtime <= EPOCH + timedelta(days=47513))"],
+    ensures=[
+        # returned exactly when the event's time span [start, end] meets the window [starttime, endtime] (closed, as instants)
+        "any(result[j].id == event.id for j in range(len(result)))"
+        " == ((starttime is None or starttime <= old(event.timestamp + event.duration)) and (endtime is None or old(event.timestamp) <= endtime))",
+        # and then with its own instant and duration
+        "all(result[j].id != event.id or (result[j].timestamp == old(event.timestamp) and result[j].duration == old(event.duration))"
+        "    for j in range(len(result)))",
+    ],
+    modifies=["storage.last_commit", "storage.num_uncommitted_statements", "storage.conn.*", "alloc", "event.id"],
+    writes_fresh=CUR_FRESH + EV_FRESH, raises=["IntegrityError"],
+    exc_ensures={"IntegrityError": ["False"]},
+)
